@@ -601,6 +601,8 @@ pub struct ReplayFile {
     pub signature: String,
     /// how many times the case is re-executed (router-level cases are order sensitive)
     pub repeat: u32,
+    /// "known": the case reproduces a listed known finding; anything else: it must pass
+    pub expect: String,
 }
 
 pub fn load_replay(path: &Path) -> Result<ReplayFile, String> {
@@ -612,6 +614,7 @@ pub fn load_replay(path: &Path) -> Result<ReplayFile, String> {
         case: v["case"].clone(),
         signature: v["signature"].as_str().unwrap_or("").to_string(),
         repeat: v["repeat"].as_u64().unwrap_or(1) as u32,
+        expect: v["expect"].as_str().unwrap_or("pass").to_string(),
     })
 }
 
